@@ -228,6 +228,9 @@ func genMatcher(r *sim.Rng) byte {
 
 // GenXZCfg draws a valid xz writer configuration.
 func GenXZCfg(r *sim.Rng, big bool) XZCfg {
+	if r.Chance(1, 80) {
+		return XZCfg{NoProps: true} // all defaults (the package-level constructor is used)
+	}
 	var c XZCfg
 	c.LC, c.LP, c.PB, c.NoProps = genProps(r, true)
 	c.ViaVerify = !c.NoProps && r.Chance(1, 8)
@@ -256,6 +259,9 @@ func GenXZCfg(r *sim.Rng, big bool) XZCfg {
 
 // GenL2Cfg draws a valid LZMA2 writer configuration.
 func GenL2Cfg(r *sim.Rng, big bool) L2Cfg {
+	if r.Chance(1, 80) {
+		return L2Cfg{NoProps: true} // all defaults
+	}
 	var c L2Cfg
 	c.LC, c.LP, c.PB, c.NoProps = genProps(r, true)
 	c.ViaVerify = !c.NoProps && r.Chance(1, 8)
@@ -268,6 +274,9 @@ func GenL2Cfg(r *sim.Rng, big bool) L2Cfg {
 // GenLZCfg draws a valid classic LZMA writer configuration for a payload of
 // n bytes. lp2 restricts lc+lp <= 4 (interoperability side).
 func GenLZCfg(r *sim.Rng, n int, big bool, interop bool) LZCfg {
+	if r.Chance(1, 80) {
+		return LZCfg{NoProps: true} // all defaults: end marker, no size in the header
+	}
 	var c LZCfg
 	c.LC, c.LP, c.PB, c.NoProps = genProps(r, interop)
 	c.ViaVerify = !c.NoProps && r.Chance(1, 8)
